@@ -28,7 +28,7 @@ func registerAll() {
 	// ---------------------------------------------------------------- pipelines, concurrent writers (C05, C06, C08, C09)
 	// two requests in one segment, both handlers wait until both have started, then write concurrently
 	regSpec(&Spec{
-		Name: "pipe2-concurrent-writers", Props: []string{"C05", "C06", "C08", "C09", "C12", "C07", "C03", "C04"},
+		Name: "pipe2-concurrent-writers", Props: []string{"C05", "C06", "C08", "C09", "C12", "C07", "C03", "C04", "C01"},
 		Conns: []ConnSpec{{
 			Ops:    []string{"bind", "search"},
 			H:      map[int]*HSpec{1: {WaitStarted: 2}, 2: {WaitStarted: 2, Frames: []int{10, 5000}}},
@@ -47,7 +47,7 @@ func registerAll() {
 		Quick: 1, Thor: 2,
 	})
 	regSpec(&Spec{
-		Name: "pipe3-mixed-ops", Props: []string{"C05", "C06", "C09", "C03"},
+		Name: "pipe3-mixed-ops", Props: []string{"C05", "C06", "C09", "C03", "C01"},
 		Conns: []ConnSpec{{
 			Ops:    []string{"modify", "add", "delete"},
 			H:      map[int]*HSpec{1: {WaitStarted: 3}, 2: {WaitStarted: 3}, 3: {WaitStarted: 3}},
